@@ -58,9 +58,9 @@ with ThreadPoolExecutor(jobs) as ex:
             print(f"{kind}/{d.name} {err}", flush=True)
             bad += 1
             continue
-        if kind == "benign":
+        if kind.startswith("benign"):
             ok = not fired
-            print(f"benign/{d.name} {'SILENT' if ok else 'FALSE ALARM: ' + json.dumps(fired)[:600]}", flush=True)
+            print(f"{kind}/{d.name} {'SILENT' if ok else 'FALSE ALARM: ' + json.dumps(fired)[:600]}", flush=True)
         else:
             ok = pid in fired and "ERROR" not in fired
             others = sorted(k for k in fired if k != pid)
